@@ -255,3 +255,45 @@ func H_C18_reuse_after_cancel() {
 		d.Stop()
 	})
 }
+
+// H_C18_cancel_parked_write: the shared transport is congested (it accepts no write until a gate
+// opens), the logical connection of key A has one write inside the transport and a second one
+// parked behind it; Cancel("A") lands at any point, then the link clears. Both writers must
+// return (the parked one with an error or a success, never blocking forever).
+func H_C18_cancel_parked_write() {
+	shared := &zzGated{zzConn: *newZZConn(), gate: make(chan struct{})}
+	var connA RpcReadWriter
+	got := make(chan struct{})
+	onNew := func(rw RpcReadWriter) {
+		vfHarnessGoroutine()
+		connA = rw
+		close(got)
+	}
+	d := NewDemux(context.Background(), shared, func(r *Rpc) string { return r.Header.Source }, onNew)
+	go func() {
+		vfHarnessGoroutine()
+		d.Run()
+	}()
+	w1, w2 := false, false
+	go func() {
+		shared.in <- &Rpc{Id: 1, Header: &RpcHeader{Source: "A"}}
+		<-got
+		go func() {
+			connA.Write(context.Background(), &Rpc{Id: 10, Header: &RpcHeader{Source: "srv", Destination: "A"}})
+			w1 = true
+		}()
+		go func() {
+			connA.Write(context.Background(), &Rpc{Id: 11, Header: &RpcHeader{Source: "srv", Destination: "A"}})
+			w2 = true
+		}()
+		go func() {
+			d.Cancel("A")
+			close(shared.gate) // the link clears after the cancellation
+		}()
+	}()
+	vfAtQuiescence(func() {
+		vfAssert(w1 && w2, "writes-on-a-cancelled-connection-return")
+		vfReach("checked")
+		d.Stop()
+	})
+}
